@@ -11,7 +11,6 @@ NA = {
  "C30": "every NTS-KE parser is an async fn over AsyncRead; string records need from_utf8, which CBMC does not finish; out of reach of both verifiers",
  "C35": "pool bookkeeping lives in async spawner tasks interleaved with DNS and channel sends in the ntpd crate; a schedule property, not a per-call contract",
  "C36": "timing/schedule property of a tokio task loop; contracts cannot express pacing",
- "C19": "not claimed: the contract harnesses exist (kani/ntp_proto/packet/mod.rs c19_*, kani/ntp_proto/server.rs c19_*; unit parked as units/C19.json.wip) but none of them discharges within the quick-tier budget (cookie-cap harness > 10 min, server-side gating harnesses 8-20 min each), and the 'fresh cookie decodes to the same keys / client can authenticate the answer' clauses rest on the cipher, which the verifiers cannot execute (real AES-SIV makes the Kani compiler panic)",
  "C25": "not claimed: tamper-evidence is a property of AES-SIV (assumed, A3); the contract around it (the cipher receives exactly nonce / ciphertext / everything-before-the-field as associated data; failure yields no fields) is written (c25_* in kani/ntp_proto/packet/extension_fields.rs, unit parked as units/C25.json.wip) but its quick harness does not finish within 25 min; the slice-formation half is discharged under C23 (c23_b_encrypted_field_from_message_bytes_total)",
  "C38": "async framing plus serde_json; only its numeric clause is a contract and that one is discharged under C32",
 }
